@@ -59,6 +59,10 @@ class C10(PropBase):
             if len(segs) < 2:
                 return None
             i = rng.randrange(1, len(segs))
+            if rng.random() < 0.5:
+                # '**' in the middle: the segments after it are kept; with j == i it stands for zero levels on the base's own depth
+                j = i if rng.random() < 0.4 else rng.randrange(i, len(segs))
+                return rule, '/'.join(segs[:i] + ['**'] + segs[j:]), ['/'.join(segs[:i] + ['*'] * n + segs[j:]) for n in range(0, 10)], {}
             return rule, '/'.join(segs[:i] + ['**']), ['/'.join(segs[:i] + ['*'] * n) for n in range(0, 10)], {}
         if rule == 'filter':
             keys = self.keys_for(v, base)
